@@ -35,6 +35,8 @@ PAYLOAD_CORPUS = [
     "", "0", "1", "2", "-1", "100", "101", " 7 ", "+5", "1_0", "abc", "Off", "HeatOn", "Min", "Auto", "M", "I",
     "ffffff", "fffff", "gggggg", "ffffffff", "1.5", "nan", "inf", "-inf", "1e3", "100.0", "100.1", "-1.0", "1.0",
     "1,2,3", "1,2", "a,b,c", "1.4", "1.3", "2.0.0", "v1.4", "254", "255", "256", "0x10", "١٢",
+    # right length, blanks or signs where hex digits belong (decoders differ in what they skip)
+    "ff  ff", " ff ff", "ff ff ", "ff\tff\t", "      ", "FFFFFF", "ff ff ff", "ffff  ff", " ffffff ", "        ", "0xffff", "+fffff", "ff_fff", "ｆｆｆｆｆｆ",
 ]
 
 
@@ -284,6 +286,14 @@ def replay_mqtt(model, rec):
             back = gw.parse_mqtt_to_message(pre + topic, payload, qos)
             if back is None or back + "\n" != line:
                 return True, f"in_prefix {pre!r}: {line!r} published as {topic!r} comes back as {back!r}"
+            # the ack flag of a received command is decided by the delivery QoS alone (a broker may deliver below
+            # the published QoS; the subscriptions ask for QoS 0)
+            for q in (0, 1, 2, None):
+                got = gw.parse_mqtt_to_message(pre + topic, payload, q)
+                f = line.rstrip("\n").split(";")
+                want = ";".join(f[:3] + ["1" if q else "0"] + f[4:])
+                if got != want:
+                    return True, f"in_prefix {pre!r}: topic {pre + topic!r} delivered at QoS {q!r} is received as {got!r}; QoS > 0 exactly when ack = 1 prescribes {want!r}"
         for bad in ["1/2/3/0/4", pre + "x/1/2/3/0/4", pre + "/1/2/3/0"]:
             if bad.startswith(pre + "/") and len(bad[len(pre) + 1 :].split("/")) == 5 and "/" not in "".join(bad[len(pre) + 1 :].split("/")):
                 continue
